@@ -1650,6 +1650,9 @@ def tls_oracle(case):
                      or (kind == 13 and m.signature_algorithms is None))
         if isinstance(e, TypeError) and none_list:
             TLS_DOMAIN["reencode_none_list_typeerror"] += 1
+            # candidate finding F14 (docs/C17.md): listed in the evidence, not failed
+            CANDIDATES.setdefault(("tls-reencode-TypeError", kind), {
+                "signature": {"codec": "tls", "rule": "reencode_raise", "exception": "TypeError", "message": kind}, "case": case})
             return None
         return ("decoded TLS message (type %d) does not re-encode: %s" % (kind, type(e).__name__),
                 {"codec": "tls", "rule": "reencode_raise", "message": kind, "exception": type(e).__name__})
@@ -1711,6 +1714,27 @@ def tls_gen(ctx, rng, n):
             cases.append({"s": "tls", "op": ["pull", kind, H(data)]})
         elif r < 0.95:
             cases.append({"s": "tls", "op": ["pull", kind, H(data[:rng.randint(0, len(data))])]})
+        # accepted-but-not-canonical inputs (the <msg>_reencode theorems): permuted / duplicated extensions, a lying extension_length
+        xpath = {1: 5, 2: 5, 4: 4, 8: 0, 13: 1}.get(kind)
+        if xpath is not None and i % 6 == 0:
+            t = tls_tree(kind, m)
+            flat = t[1][2][xpath][2]
+            pairs = [flat[j:j + 2] for j in range(0, len(flat), 2)]
+            if pairs:
+                how = rng.choice(["shuffle", "dup", "lie", "drop"])
+                if how == "shuffle":
+                    rng.shuffle(pairs)
+                elif how == "dup":
+                    pairs.insert(rng.randint(0, len(pairs)), rng.choice(pairs))
+                elif how == "drop":
+                    pairs.pop(rng.randrange(len(pairs)))
+                t[1][2][xpath][2] = [x for pr in pairs for x in pr]
+                raw = b"".join(tree_bytes(x) for x in t)
+                if how == "lie":
+                    # overwrite the declared length of the first extension with another value, keeping the body
+                    off = len(raw) - len(b"".join(tree_bytes(x) for x in t[1][2][xpath][2]))
+                    raw = raw[:off + 2] + rng.choice([0, 1, 0xFFFF]).to_bytes(2, "big") + raw[off + 4:]
+                cases.append({"s": "tls", "op": ["pull", kind, H(raw)]})
         else:
             cases.append({"s": "tls", "op": ["pull", kind, H(bytes([kind]) + rbytes(rng, rng.randint(0, 40)))]})
     # boundaries of the round-trip domain: blocks that do not fit their length prefix (OverflowError on both sides),
